@@ -112,6 +112,25 @@ def r1_cache_key(a, tier):
             rep.fail(fn.qualname, f'key-misses:{p}', f'the cached model is built from `{p}` but the cache key '
                      f'({norm(sub.slice) if not isinstance(sub.slice, ast.Name) else "key"}) does not depend on it: a later call '
                      f'with a different `{p}` gets the model compiled for the earlier one', f'{fn.module.relpath}:{st.lineno}')
+    # a parameter stored AS IT IS on the object that came out of the cache (model.semantics = semantics) is part of what the other
+    # holders of that object see: it has to be part of the key as well
+    model_names = {t.id for st, _ in stores for t in st.targets if isinstance(t, ast.Name)} | {
+        n.targets[0].id for n in walk_no_defs(fn.node) if isinstance(n, ast.Assign) and isinstance(n.targets[0], ast.Name)
+        and isinstance(n.value, ast.Subscript) and isinstance(n.value.value, ast.Name) and n.value.value.id in cache_names}
+    all_key_params = set()
+    for _st, sub in stores:
+        kn = _names_in(sub.slice)
+        all_key_params |= {p for p in params if _flow(fn, {p}) & kn or p in kn}
+    for n in walk_no_defs(fn.node):
+        if isinstance(n, ast.Assign) and isinstance(n.value, ast.Name) and n.value.id in params:
+            for t in n.targets:
+                if isinstance(t, ast.Attribute) and isinstance(t.value, ast.Name) and t.value.id in model_names:
+                    keyed = n.value.id in all_key_params
+                    rep.add({'stored_on_the_cached_object': norm(n), 'parameter_in_key': keyed})
+                    if not keyed:
+                        rep.fail(fn.qualname, f'key-misses-stored:{n.value.id}', f'`{norm(n)}` stores the parameter on the object shared through the cache, and the key does not '
+                                 f'depend on `{n.value.id}`: every caller that compiled this grammar now holds a model with THIS call\'s {n.value.id} '
+                                 f'(a parser compiled without semantics runs the actions of a later caller)', f'{fn.module.relpath}:{n.lineno}')
     # lossy components: a key component computed from a parameter through a function that maps different values to the same result
     # (type(x), len(x), bool(x), x.__class__ ...) lets two calls that differ in that parameter share an entry.  Faithful forms: the
     # value itself, id(x), a content hash (hasha / hash / sha*), str / repr / tuple / frozenset / sorted of it
